@@ -517,6 +517,20 @@ func main() {
 	if len(distinct) < minD || merged.Evaluations == 0 {
 		die(2, "INFRA vacuous exploration: evaluations=%d distinct=%d", merged.Evaluations, len(distinct))
 	}
+	// A run that claims to be exhaustive but evaluated less than half of what the
+	// same tier evaluates on the tree the baselines were recorded on explored
+	// something else than it says (e.g. a change made most cases "not applicable"):
+	// that is not a verdict. baselines.json is committed and never written here.
+	if merged.Exhaustive && os.Getenv("VERIF_ONLY_FAMILY") == "" {
+		if bb, err := os.ReadFile(filepath.Join(root, "baselines.json")); err == nil {
+			var bl map[string]map[string]int64
+			if json.Unmarshal(bb, &bl) == nil {
+				if want := bl[id][tier]; want > 0 && merged.Evaluations*2 < want {
+					die(2, "INFRA vacuous exploration: %d evaluations, the %s tier evaluates about %d", merged.Evaluations, tier, want)
+				}
+			}
+		}
+	}
 }
 
 // runRacePass builds the check package once more without the sync overlay, with
